@@ -19,11 +19,12 @@ pub assume_specification<T> [bool::then_some] (b: bool, t: T) -> (r: Option<T>)
 
 // ASSUMED std fact: the reflexive conversion u32 -> u32 (`impl<T, U: Into<T>> TryFrom<U> for T`, Error = Infallible) is
 // `Ok(x)`; vstd specifies the narrowing integer conversions only
+#[verifier::external_body]
 pub broadcast proof fn axiom_u32_try_into_u32(x: u32)
     ensures
         <u32 as TryIntoSpec<u32>>::obeys_try_into_spec(),
         #[trigger] <u32 as TryIntoSpec<u32>>::try_into_spec(x) == Ok::<u32, <u32 as TryInto<u32>>::Error>(x),
-{ admit(); }
+{}
 
 // ---- derive(PartialEq) of the fieldless enum MDBSetOperation (R10 drops the derive): structural equality ---------
 impl PartialEqSpecImpl for MDBSetOperation {
@@ -295,7 +296,7 @@ proof fn lemma_file_table_meaning(f1: Option<FileDataSequenceHeader>, f2: Option
 
 //@ extract mdb_shard/src/set_operations.rs fn get_next_actions_for_file_info
 //@ ret r
-//@ rules R17
+//@ rules setops.R17
 //@ contract
     ensures
         /*@C10*/ as_pair(r) == file_table(deref_hdr(h1), deref_hdr(h2), op),
